@@ -381,6 +381,12 @@ fn parse_resolve_command(command: &mut std::str::SplitN<&str>) -> Result<Request
         None => -1,
     };
 
+    // as for set-safe: versions below -1 are internal states; -2 would store the key with version
+    // -1, the mark of a removed key on disk, and the key would be gone after the next restart
+    if version < -1 {
+        return Err(String::from("Invalid version!"));
+    }
+
     let value = match rest.next() {
         Some(value) => value.replace("\n", ""),
         None => return Err(String::from("set-safe must be followed by a key")),
